@@ -114,6 +114,62 @@ def one_round(ctx, r, st, ids, epic, big=False, force=None, pre_trace=None):
     return True
 
 
+def exec_tty(st, argv, typed, timeout=20):
+    """run a command with a terminal as stdin: `typed` is what the user types, then Ctrl-D at the start of a line (end of input)"""
+    import pty, subprocess, os, termios, select, time
+    m, sl = pty.openpty()
+    attrs = termios.tcgetattr(sl); attrs[3] = attrs[3] & ~termios.ECHO; termios.tcsetattr(sl, termios.TCSANOW, attrs)
+    p = subprocess.Popen([st.bin, *argv], cwd=st.root, stdin=sl, stdout=subprocess.PIPE, stderr=subprocess.PIPE)
+    os.close(sl)
+    try:
+        os.write(m, typed if typed.endswith(b"\n") else typed + b"\n")
+        os.write(m, b"\x04")
+        try:
+            out, err = p.communicate(timeout=timeout)
+        except subprocess.TimeoutExpired:
+            p.kill(); out, err = p.communicate()
+            return {"exit": -9, "stdout": "", "stderr": "TIMEOUT"}
+    finally:
+        os.close(m)
+    return {"exit": p.returncode, "stdout": out.decode("utf-8", "replace"), "stderr": err.decode("utf-8", "replace")}
+
+
+def terminal_stdin(ctx, st):
+    """--body-stdin with a terminal as stdin (the body typed, ended with Ctrl-D), alone and together with other field flags, on `set` and on the
+    two creating commands: the item ends up exactly as when the same bytes arrive through a pipe"""
+    def show(i):
+        v = json.loads(st.exec(["--json", "show", i])["stdout"])
+        v = v.get("epic", v) if isinstance(v.get("epic"), dict) else v
+        return {k: v.get(k) for k in ("title", "body", "state")}
+    body = b"typed on a terminal: first line\nsecond line \xc3\xa9\xe2\x82\xac\n"
+    for extra in ([], ["--title", "title given with the body"], ["--state", "blocked"], ["--title", "both", "--state", "blocked"]):
+        pair = []
+        for channel in ("pipe", "terminal"):
+            tid = json.loads(st.exec(["--json", "new", "task"], b'{"title":"before","body":"first draft of the body"}')["stdout"])["id"]
+            argv = ["--json", "set", tid, "--body-stdin"] + extra
+            res = st.exec(argv, body) if channel == "pipe" else exec_tty(st, argv, body)
+            ctx.count(1, key=("terminal-stdin", "set", channel, " ".join(extra[::2])))
+            pair.append((res["exit"], show(tid), argv))
+        if pair[0][:2] != pair[1][:2]:
+            ctx.violation("C17 body altered (set --body-stdin typed on a terminal%s)" % (" with " + " ".join(extra[::2]) if extra else ""),
+                          "the same bytes through a pipe give exit %s and %s; typed on a terminal (Ctrl-D) exit %s and %s" % (pair[0][0], json.dumps(pair[0][1])[:200], pair[1][0], json.dumps(pair[1][1])[:200]),
+                          {"trace": [{"argv": ["--json", "new", "task"], "stdin": '{"title":"before","body":"first draft of the body"}'},
+                                     {"argv": pair[1][2], "stdin_typed_on_a_terminal": body.decode(), "then": "Ctrl-D"}]}); return False
+    for kind in ("task", "epic"):
+        pair = []
+        for channel in ("pipe", "terminal"):
+            argv = ["--json", "new", kind, "--title", "created with a typed body", "--body-stdin"]
+            res = st.exec(argv, body) if channel == "pipe" else exec_tty(st, argv, body)
+            ctx.count(1, key=("terminal-stdin", "new " + kind, channel))
+            nid = json.loads(res["stdout"])["id"] if res["exit"] == 0 else None
+            pair.append((res["exit"], show(nid) if nid else None, argv))
+        if pair[0][:2] != pair[1][:2]:
+            ctx.violation("C17 body altered (new %s --body-stdin typed on a terminal)" % kind,
+                          "through a pipe: exit %s %s; on a terminal: exit %s %s" % (pair[0][0], json.dumps(pair[0][1])[:200], pair[1][0], json.dumps(pair[1][1])[:200]),
+                          {"trace": [{"argv": pair[1][2], "stdin_typed_on_a_terminal": body.decode(), "then": "Ctrl-D"}]}); return False
+    return True
+
+
 def run(ctx):
     res = fndiff.run_stream(ctx.ev, ["fn-json", str(ctx.seed + 1700), "3000" if ctx.quick else "30000"])
     ctx.tie("T2-fn json string codec / TrimSpace", cases=res["cases"], disagreements=len(res["diffs"]))
@@ -154,6 +210,8 @@ def run(ctx):
                 body = "".join("a" * (boundary - off) + ch + "b" * 7 for off in (1, 2, 3))[: boundary + 64] + "a" * (boundary - 70) + ch * 40 + "tail"
                 if not one_round(ctx, r, st, ids, None, force=(mode, "chunk %d" % boundary, body)):
                     return
+        if not terminal_stdin(ctx, st):
+            return
         # the log carries a title and a body for the item stamped by a clock that runs ahead (a collaborator's lines merged in): the text supplied
         # *now* is what the next read returns — which text an item has follows from the order of the lines, not from their stamps
         import datetime
